@@ -91,9 +91,15 @@ def showBlock (r : Nat × UInt64 × Array Nat) : String :=
   let (cnt, h, cats) := r
   s!"ok n={cnt} digest={h.toNat} cats={",".intercalate ((cats.toList.take 9).map toString)} other={cats.getD 9 0}"
 
+/-- every Unicode scalar value accepted by a `try_from(char)` model, "cp:index" (surrogates are not `char`s) -/
+def tabChars (f : Nat → Option Nat) : String :=
+  ",".intercalate (((List.range 0x110000).filter fun c => c < 0xD800 || 0xDFFF < c).filterMap fun c => (f c).map fun i => s!"{c}:{i}")
+
 def runOp1 (op : String) (a : List String) : Option String :=
   let n (i : Nat) : Nat := (a.getD i "0").toNat!
   match op with
+  | "tab_rank_chars" => some (tabChars rankOfChar)
+  | "tab_suit_chars" => some (tabChars suitOfChar)
   | "rank_u8" => some (toString (rankU8 (n 0)))
   | "suit_u8" => some (toString (suitU8 (n 0)))
   | "rank_char" => some (toString (rankChar (n 0)))
